@@ -1,0 +1,127 @@
+//! Verification hooks (compiled only with `--cfg bmwill_anemo_verif`).
+//!
+//! Thin public wrappers around crate-private functions so that an external harness can drive
+//! them. They contain no logic of their own.
+
+use crate::{
+    network::verif_wire as wire, types::Version, Config, ConnectionOrigin, PeerId, Request,
+    Response, Result,
+};
+use bytes::Bytes;
+use std::time::Duration;
+use tokio::io::{AsyncRead, AsyncWrite};
+use tokio_util::codec::{FramedRead, FramedWrite};
+
+//
+// Wire codecs (network/wire.rs)
+//
+
+pub async fn write_version_frame<T: AsyncWrite + Unpin>(
+    send_stream: &mut T,
+    version: Version,
+) -> Result<()> {
+    wire::write_version_frame(send_stream, version).await
+}
+
+pub async fn read_version_frame<T: AsyncRead + Unpin>(recv_stream: &mut T) -> Result<Version> {
+    wire::read_version_frame(recv_stream).await
+}
+
+pub async fn write_request<T: AsyncWrite + Unpin>(
+    config: &Config,
+    stream: T,
+    request: Request<Bytes>,
+) -> Result<T> {
+    let mut framed = FramedWrite::new(stream, wire::network_message_frame_codec(config));
+    wire::write_request(&mut framed, request).await?;
+    Ok(framed.into_inner())
+}
+
+pub async fn write_response<T: AsyncWrite + Unpin>(
+    config: &Config,
+    stream: T,
+    response: Response<Bytes>,
+) -> Result<T> {
+    let mut framed = FramedWrite::new(stream, wire::network_message_frame_codec(config));
+    wire::write_response(&mut framed, response).await?;
+    Ok(framed.into_inner())
+}
+
+pub async fn read_request<T: AsyncRead + Unpin>(
+    config: &Config,
+    stream: T,
+) -> Result<Request<Bytes>> {
+    let mut framed = FramedRead::new(stream, wire::network_message_frame_codec(config));
+    wire::read_request(&mut framed).await
+}
+
+pub async fn read_response<T: AsyncRead + Unpin>(
+    config: &Config,
+    stream: T,
+) -> Result<Response<Bytes>> {
+    let mut framed = FramedRead::new(stream, wire::network_message_frame_codec(config));
+    wire::read_response(&mut framed).await
+}
+
+//
+// Timeout middleware (middleware/timeout)
+//
+
+pub fn try_parse_timeout(headers: &crate::types::HeaderMap) -> Result<Option<Duration>, &str> {
+    crate::middleware::timeout::try_parse_timeout(headers)
+}
+
+pub fn duration_to_timeout(duration: Duration) -> String {
+    crate::middleware::timeout::duration_to_timeout(duration)
+}
+
+/// The inbound `Timeout` middleware around `inner`.
+pub fn inbound_timeout<S>(
+    inner: S,
+    default_timeout: Option<Duration>,
+) -> impl tower::Service<Request<Bytes>, Response = Response<Bytes>, Error = S::Error>
+where
+    S: tower::Service<Request<Bytes>, Response = Response<Bytes>>,
+{
+    use tower::Layer;
+    crate::middleware::timeout::inbound::TimeoutLayer::new(default_timeout).layer(inner)
+}
+
+/// The outbound `Timeout` middleware around `inner`.
+pub fn outbound_timeout<S>(
+    inner: S,
+    default_timeout: Option<Duration>,
+) -> impl tower::Service<Request<Bytes>, Response = S::Response, Error = crate::Error>
+where
+    S: tower::Service<Request<Bytes>>,
+    S::Error: Into<crate::Error>,
+{
+    use tower::Layer;
+    crate::middleware::timeout::outbound::TimeoutLayer::new(default_timeout).layer(inner)
+}
+
+pub fn is_timeout_expired(error: &crate::Error) -> bool {
+    error
+        .downcast_ref::<crate::middleware::timeout::TimeoutExpired>()
+        .is_some()
+}
+
+//
+// Connection manager decision functions (network/connection_manager.rs)
+//
+
+pub fn simultaneous_dial_tie_breaking(
+    own_peer_id: &PeerId,
+    remote_peer_id: &PeerId,
+    existing_origin: ConnectionOrigin,
+    new_origin: ConnectionOrigin,
+) -> bool {
+    crate::network::verif_hooks::tie_breaking(
+        own_peer_id,
+        remote_peer_id,
+        existing_origin,
+        new_origin,
+    )
+}
+
+pub use crate::network::verif_hooks::VerifBackoff;
